@@ -141,8 +141,10 @@ def check_config(ctx, F, tag):
         ok = bool(aggs)
         for bi, st in aggs:
             fs = facts_at(b, bi)
-            nz = any(f[0] == "cmp" and f[1] == "Ne" and core(f[2])[:2] == ("param", wp) and m(Const(0), f[3]) for f in fs)
-            le = any(f[0] == "cmp" and f[1] == "Le" and core(f[2])[:2] == ("param", wp) and m(Const(64, "bits::WORD_BITS"), f[3]) for f in fs)
+            from guards import fact_nonzero, fact_at_most
+            wt = ("param", wp, b.local_name(wp + 1))
+            nz = fact_nonzero(fs, wt)
+            le = fact_at_most(fs, wt, 64)
             wv = core(b.term_of_operand(dict(zip(st["rv"]["fields"], st["rv"]["ops"]))["width"]))
             ok = ok and nz and le and wv[:2] == ("param", wp)
         # the failing edges return Err
@@ -176,6 +178,12 @@ def check_wm_load_width(ctx, F, tag, rule="C09.R2.width-predicate"):
     ok = bool(aggs)
     for bi in aggs:
         fs = facts_at(wl, bi)
-        ok = ok and any(f[0] == "cmp" and f[1] == "Ne" and m(Const(0), f[3]) for f in fs) and any(f[0] == "cmp" and f[1] == "Le" and m(Const(64, "bits::WORD_BITS"), f[3]) for f in fs)
+        import serfmt
+        from guards import fact_nonzero, fact_at_most
+        L = serfmt.load_seq(wl)
+        if not L or L[0]["payload"] is None:
+            raise Undecided("WMCore::load: the width element is not the first load")
+        wt = wl.term_of_local(L[0]["payload"])
+        ok = ok and fact_nonzero(fs, wt) and fact_at_most(fs, wt, 64) and not fact_at_most(fs, wt, 63)
     ctx.ob(rule, wl.name + tag, loc(wl.raw["span"]), ok, "guard-dominance", "WMCore::load refuses width == 0 || width > WORD_BITS before building: %s" % ok)
 
